@@ -1491,25 +1491,42 @@ func (e *Engine) evalSum(y *EQuant, env *evalEnv, bv string, body Val) Val {
 		} else {
 			e.vc.assume(quant(eq(call(lo.S), "0"), call(lo.S)))
 		}
-		// congruence lemma (valid for any two sums over the same range start, by induction on n): if the summands
-		// agree on [lo, n) the sums agree. Emitted between the instances of one contract sum expression evaluated
-		// in different program states (e.g. a slice before and after an unrelated append).
-		if rc := e.prog.Contracts[e.rootKey]; len(prms) == 0 && rc != nil && rc.Uses["sum_congruence"] {
-			if e.sumByExpr == nil {
-				e.sumByExpr = map[*EQuant][]sumInst{}
+	}
+	// congruence lemma (valid for any two sums over the same range start, by induction on n): if the summands
+	// agree on [lo, n) the sums agree. Emitted between the instances of one contract sum expression evaluated
+	// in different program states (e.g. a slice before and after an unrelated append), once per block that uses it.
+	if rc := e.prog.Contracts[e.rootKey]; len(prms) == 0 && rc != nil && rc.Uses["sum_congruence"] {
+		if e.sumByExpr == nil {
+			e.sumByExpr = map[*EQuant][]sumInst{}
+			e.congDone = map[string]bool{}
+		}
+		tmpl := replaceToken(body.S, bv, "%v")
+		known := false
+		for _, o := range e.sumByExpr[y] {
+			if o.fn == fn {
+				known = true
+				continue
 			}
-			tmpl := replaceToken(body.S, bv, "%v")
-			for _, o := range e.sumByExpr[y] {
-				if o.lo != lo.S {
-					continue
-				}
-				e.qn++
-				jv := fmt.Sprintf("cj_q%d", e.qn)
-				b1 := strings.ReplaceAll(o.tmpl, "%v", jv)
-				b2 := strings.ReplaceAll(tmpl, "%v", jv)
-				e.vc.assume(fmt.Sprintf("(forall ((cn Int)) (! (=> (forall ((%s Int)) (=> (and (<= %s %s) (< %s cn)) (= %s %s))) (= (%s cn) (%s cn))) :pattern ((%s cn) (%s cn))))",
-					jv, lo.S, jv, jv, b1, b2, o.fn, fn, o.fn, fn))
+			if o.lo != lo.S {
+				continue
 			}
+			a, b := o.fn, fn
+			if a > b {
+				a, b = b, a
+			}
+			key := fmt.Sprintf("%s|%s|%d", a, b, e.vc.curTag)
+			if e.congDone[key] {
+				continue
+			}
+			e.congDone[key] = true
+			e.qn++
+			jv := fmt.Sprintf("cj_q%d", e.qn)
+			b1 := strings.ReplaceAll(o.tmpl, "%v", jv)
+			b2 := strings.ReplaceAll(tmpl, "%v", jv)
+			e.vc.assume(fmt.Sprintf("(forall ((cn Int)) (! (=> (forall ((%s Int)) (=> (and (<= %s %s) (< %s cn)) (= %s %s))) (= (%s cn) (%s cn))) :pattern ((%s cn) (%s cn))))",
+				jv, lo.S, jv, jv, b1, b2, o.fn, fn, o.fn, fn))
+		}
+		if !known {
 			e.sumByExpr[y] = append(e.sumByExpr[y], sumInst{fn: fn, tmpl: tmpl, lo: lo.S})
 		}
 	}
